@@ -25,6 +25,12 @@ CHECKS = {
  "C07": dict(technique="PBT of argument coercion: conformance predicate, reference coercion model, rejection of structurally wrong values, literal-vs-variable route equivalence; exhaustive Int boundary grid (thorough)",
              text="A recording probe field and FIELD directive take an argument of a generated input type; natural, boundary and structurally wrong values are supplied inline, through variables (with/without defaults, nullable into non-null) and nested in literals, in provided/omitted/null modes; received kwargs must conform, equal the reference coercion, wrong values must be rejected before the resolver runs, and both routes must agree. coerce_value and value_from_ast are driven directly with the same cases.",
              note="Trusted: classify/conforms/coerce_ref in props/c07.py and vlib/gen/schema.py. Scalar-for-scalar leniency is deliberately not asserted.", ref="3/C07"),
+ "C08": dict(technique="schedule-owning differential PBT: harness-controlled pool / gated asyncio loop, drawn and (thorough) exhaustively enumerated completion orders, fault injection of unexpected exceptions",
+             text="Validated operations are executed in five executor/runtime configurations; the harness owns the executor (ThreadPoolRuntime._inner, asyncio default executor) and per-resolver gates, so it decides every completion order; data and error multiset must equal the reference executor in every configuration and schedule, the result must be done once all tasks are done, an injected unexpected exception must fail the overall result.",
+             note="Trusted: vlib/sched/run.py, vlib/ref/exec.py. Completion-order granularity (see assumptions).", ref="3/C08"),
+ "C09": dict(technique="history invariant over a harness-recorded event timeline under owned schedules (same harness as C08), mutation operations only",
+             text="For mutation operations the timeline of submit/invoke/call/done events recorded by the owned pool, gates and resolvers must keep all events of an earlier top-level field before any event of a later one, in every configuration and completion order; all top-level fields run even after failures; key order and data equal the reference.",
+             note="Trusted: vlib/sched/run.py event recording; submit time is taken as earliest possible invocation for pool tasks.", ref="3/C09"),
 }
 ALL = ["C%02d" % i for i in range(1, 21)]
 NA_REASON = "check not built yet (work in progress; see DESIGN.md section 3 for the planned design)"
